@@ -137,7 +137,10 @@ def cases(draw, only_tilewalk=False):
     case['content_levels'] = content
 
     # what to remove
-    mode = draw(st.sampled_from(['before', 'before', 'before', 'all', 'all', 'default', 'all+before']))
+    if backend in TIMESTAMP_BACKENDS:
+        mode = draw(st.sampled_from(['before', 'before', 'before', 'before', 'all', 'default', 'all+before']))
+    else:
+        mode = draw(st.sampled_from(['all', 'all', 'all', 'default', 'default', 'before', 'all+before']))
     case['mode'] = mode
     case['tkind'] = draw(st.sampled_from(['time', 'time_dt', 'mtime', 'mtime', 'delta']))
     case['T0'] = 1500000000 + draw(st.integers(0, 10 ** 8))
@@ -147,20 +150,28 @@ def cases(draw, only_tilewalk=False):
     case['t_future'] = draw(st.booleans())   # only for backends without timestamps that accept remove_before
 
     # level selection
-    lk = draw(st.sampled_from(['none', 'list', 'list', 'list', 'range', 'range', 'res_range']))
+    lk = draw(st.sampled_from(['none', 'list', 'list', 'list', 'list', 'list', 'range', 'range', 'range', 'range', 'res_range', 'res_range']))
     if lk == 'none':
         case['levels'] = None
     elif lk == 'list':
-        sub = draw(st.lists(st.sampled_from(content), min_size=1, max_size=3))
+        sub = draw(st.lists(st.sampled_from(content), min_size=1, max_size=max(1, min(3, ncl - 1)), unique=True))
         extra = draw(st.lists(st.integers(-1, n + 1), max_size=2))
         case['levels'] = ['list', sub + extra]
     elif lk == 'range':
-        case['levels'] = ['range', draw(st.one_of(st.none(), st.integers(0, n))),
-                          draw(st.one_of(st.none(), st.integers(0, n + 2)))]
+        a = draw(st.sampled_from([None, None] + content * 6 + [n]))
+        b = draw(st.sampled_from([None, None] + [c for c in content if a is None or c >= a] * 6 + [n + 2, 0]))
+        if a is None and b is None:
+            b = content[0]
+        case['levels'] = ['range', a, b]
     else:
-        a = draw(st.integers(0, n - 1))
-        b = draw(st.integers(a, n - 1))
-        case['levels'] = ['res_range', draw(st.sampled_from([a, None])), draw(st.sampled_from([b, None]))]
+        a = draw(st.sampled_from(content))
+        b = draw(st.sampled_from([c for c in content if c >= a]))
+        ab = draw(st.sampled_from([(a, b), (a, b), (a, None), (None, b)]))
+        if ab[0] is None and b == n - 1:
+            ab = (a, b)
+        if ab[1] is None and a == 0:
+            ab = (a, b)
+        case['levels'] = ['res_range', ab[0], ab[1]]
 
     # coverage
     if draw(st.integers(0, 99)) < (0 if only_tilewalk else 45):
@@ -175,16 +186,19 @@ def cases(draw, only_tilewalk=False):
                'srs': draw(st.sampled_from(['grid', 'grid', 'grid', '4326']))}
         case['cov'] = cov
 
-    # tiles
-    nt = draw(st.integers(4, 28))
+    # tiles: (content-level index, placement code, age); placement < 10**6: fractional position in the level's
+    # grid (fx = code // 1000 / 1000, fy = code % 1000 / 1000), else relative to a corner of the coverage frame
+    tl = draw(st.lists(st.tuples(st.integers(0, ncl - 1),
+                                 st.one_of(st.integers(0, 999999), st.integers(1000000, 1000099)),
+                                 st.sampled_from(OLD + OLD + NEW + NEW + BAND)), min_size=8, max_size=28))
     tiles = []
-    for _ in range(nt):
-        li = draw(st.integers(0, ncl - 1))
-        if draw(st.booleans()):
-            place = ['u', draw(st.floats(0.0, 0.999)), draw(st.floats(0.0, 0.999))]
+    for li, code, age in tl:
+        if code < 1000000:
+            # even codes: position in the grid; odd codes: position in the coverage frame widened by 25 %
+            place = ['u' if code % 2 == 0 else 'f', (code // 1000) / 1000.0, (code % 1000) / 1000.0]
         else:
-            place = ['e', draw(st.integers(0, 3)), draw(st.integers(-2, 2)), draw(st.integers(-2, 2))]
-        age = draw(st.sampled_from(OLD + OLD + NEW + NEW + BAND))
+            c = code - 1000000
+            place = ['e', c % 4, (c // 4) % 5 - 2, (c // 20) % 5 - 2]
         tiles.append([li, place, age])
     case['tiles'] = tiles
 
@@ -615,8 +629,15 @@ def resolve_tiles(case, grid, frame):
         if z >= grid.levels:
             continue
         gsx, gsy = grid.grid_sizes[z]
-        if place[0] == 'u':
+        if place[0] == 'u' or (place[0] == 'f' and frame is None):
             x, y = int(place[1] * gsx), int(place[2] * gsy)
+        elif place[0] == 'f':
+            w, h = frame[2] - frame[0], frame[3] - frame[1]
+            cx = frame[0] - 0.25 * w + place[1] * 1.5 * w
+            cy = frame[1] - 0.25 * h + place[2] * 1.5 * h
+            cx = min(max(cx, grid.bbox[0]), grid.bbox[2])
+            cy = min(max(cy, grid.bbox[1]), grid.bbox[3])
+            x, y, _ = grid.tile(cx, cy, z)
         else:
             f = frame if frame is not None else list(grid.bbox)
             cx = (f[0], f[2], f[2], f[0])[place[1] % 4]
@@ -857,6 +878,13 @@ def run_once(case, root, st_, cov_mode, pool='inline'):
                 exc = e
             finally:
                 cleanup_mod.TileWorkerPool = orig_pool
+                if pool != 'inline':
+                    # TileWalker() can raise after the workers were started (e.g. empty level list):
+                    # never leave worker processes behind
+                    import multiprocessing
+                    for p in multiprocessing.active_children():
+                        p.terminate()
+                        p.join(10)
                 try:
                     mgr.cleanup()
                 except Exception:
@@ -943,10 +971,19 @@ def run_once(case, root, st_, cov_mode, pool='inline'):
                     why = 'other-level' if not in_sel else ('newer' if age == 'new' else 'outside-coverage')
                     removed_wrong.append((coord, why, m['ts']))
         res['n_must_remove'], res['n_must_keep'] = n_must_remove, n_must_keep
-        res['nontrivial'] = bool(sel_has and unsel_has and n_must_remove and n_must_keep)
-        if not remove_all and has_ts:
-            res['nontrivial'] = res['nontrivial'] and any(
-                (m['ts'] - T) > 1 + slack for c, m in model.items() if c[2] in sel)
+        miss = []
+        if not sel_has:
+            miss.append('no-tile-in-selected-level')
+        if not unsel_has:
+            miss.append('no-tile-in-unselected-level')
+        if not n_must_remove:
+            miss.append('nothing-to-remove')
+        if not n_must_keep:
+            miss.append('nothing-to-keep')
+        if not remove_all and has_ts and not any((m['ts'] - T) > 1 + slack for c, m in model.items() if c[2] in sel):
+            miss.append('no-newer-tile-in-selected-level')
+        res['nontrivial'] = not miss
+        res['classes'] += ['trivial:' + w for w in miss]
 
         abort = ''
         if exc is not None and res['aborted'] is None:
@@ -1086,11 +1123,11 @@ def _check_all(case, st_):
 
 def random_shard(shard, nshards, seed, tier):
     st_ = core.Stats()
-    n = (9000 if tier == 'quick' else 160000) // nshards
+    n = (8000 if tier == 'quick' else 160000) // nshards
     base = _scratch('c12-shard-')
     try:
         core.hyp_search(cases(), lambda c, s: check_case(c, s, base=base), st_, max_examples=n, seed=seed,
-                        max_signatures=6)
+                        max_signatures=4)
     finally:
         shutil.rmtree(base, ignore_errors=True)
     return st_
